@@ -71,6 +71,15 @@ def run(ctx):
                     h["env"] = env
                 hists.append(h)
                 meta.append((t2, "second:" + form, base if form == "export_all" else "other/dir"))
+        # the working directory changes between two exports of one process: a relative directory is relative to the directory that is
+        # current when the export is called
+        for (t1, t2) in PAIRS[:6]:
+            h = {"op": "uhist", "root": root, "steps": unrelated + [{"k": "export_all_to", "t": t1, "dir": "rel/out"}, {"k": "mkdir", "p": "$ROOT/elsewhere/cwd2"},
+                                                                  {"k": "cd", "p": "$ROOT/elsewhere/cwd2"}, {"k": "snap"}, {"k": "export_all_to", "t": t2, "dir": "rel/out"}, {"k": "snap"}]}
+            if env is not None:
+                h["env"] = env
+            hists.append(h)
+            meta.append((t2, "aftercd:export_all_to", "elsewhere/cwd2/rel/out"))
         # a dependency's location is occupied by a directory: `Ok` may only be returned when every reachable type has its file
         for t in ROOTS:
             reach_t = uni.reach(types, t)
